@@ -142,6 +142,34 @@ def holdsFrom (P : Params) (k : Clause) : Ghost → List (Op × Obs) → Bool
 
 def holds (P : Params) (k : Clause) (t0 : Int) (h : List (Op × Obs)) : Bool := holdsFrom P k (Ghost.init t0) h
 
+/-! ### The scheduler honours the schedule it records
+
+"Every configured endpoint keeps being probed … at bounded intervals": the delay the record shows after a
+check (`NextCheckTime − LastChecked`) is a promise. A firing of the scheduler at or after that time runs
+the check. (A separate monitor with its own bookkeeping: when the next check is due according to what
+was reported.) -/
+
+structure DueGhost where
+  now : Int
+  due : Int      -- LastChecked + reported delay of the last operation that rewrote the record
+deriving Repr, DecidableEq
+
+def DueGhost.step (g : DueGhost) (op : Op) (o : Obs) : DueGhost :=
+  { now := (match op with | .tick d => g.now + d | _ => g.now),
+    due := if o.ran then g.now + o.delay else g.due }
+
+def dueOk (g : DueGhost) (op : Op) (o : Obs) : Bool :=
+  match op with
+  | .sched _ => decide (g.now < g.due) || o.ran
+  | _ => true
+
+def dueProbedFrom : DueGhost → List (Op × Obs) → Bool
+  | _, [] => true
+  | g, (op, o) :: rest => dueOk g op o && dueProbedFrom (g.step op o) rest
+
+/-- Right after loading, the first check is due at once (`NextCheckTime = now`). -/
+def dueProbed (t0 : Int) (h : List (Op × Obs)) : Bool := dueProbedFrom ⟨t0, t0⟩ h
+
 /-- number of not-healthy(≠unknown)→healthy transitions in a sequence of reported statuses -/
 def transitions : Status → List Status → Nat
   | _, [] => 0
